@@ -28,6 +28,25 @@ def run(chk):
             if done or s.meta["lost"]: nt.append(l)
             if len(chk.failures) > 10: break
         chk.note_cases("session-delivery[%s]" % variant, lines, nt, sample_n=1, dist=dist)
+    # the same deliveries with clean reboots (drop + try_recover) in between, also with more than 8 unknowns
+    from . import c07
+    scns = []
+    for k in range(40 if chk.quick() else 1200):
+        b = c07.big_loss_base(rnd) if k % 5 == 0 else session.build_delivery(rnd, small=True, with_history=rnd.random() < 0.3)
+        if b.meta["cap"] < 1:
+            continue
+        tw = c07.twin_scenarios(rnd, True, base=b, positions=lambda npos: sorted(rnd.sample(range(npos), min(npos, 2))))
+        scns += [t for t in tw if t.meta["tag"] != "ref"]
+    lines, impl, outs = session.run(chk, scns, variant="matrix", stream="session-delivery-reboot")
+    nt = []
+    for s, l, raw, out in zip(scns, lines, impl, outs):
+        if len(out) != len(s.ops):
+            chk.failures.append(core.Failure("harness produced no / truncated result", "session", "matrix", l, raw, key="crash")); break
+        for msg in session.oracle_delivery(s, out)[:1]:
+            chk.failures.append(core.Failure("with clean reboots before fragments %s: %s" % (sorted(s.meta["positions"]), msg), "session", "matrix", l, raw[:2000], key="c01"))
+        nt.append(l)
+        if len(chk.failures) > 10: break
+    chk.note_cases("session-delivery-reboot", lines, nt, sample_n=1, dist={"scenarios": len(lines)})
     # model-internal tie: Mgr.v (compared with the implementation above) vs Updater.run_session (GRecon over Sim.v's storages,
     # the object of flash_reconstruction_sound) on fresh-flash deliveries
     from . import ts004
@@ -50,5 +69,5 @@ def run(chk):
     return chk.finish(level="proof",
         rule="session-delivery stream: random geometry (fragment size classes around the 68-byte prefix, counts 1..40 (thorough: up to 300), slot sizes from 17409 B upward, erase blocks 64..512, 4/5/6 slots), "
              "optional prior history (confirmed / rejected / cancelled updates) so the session's slots lie anywhere in the ring, loss sets up to and beyond the capacity, orders (data-then-coded, shuffled, coded-first, trickle), duplicates, late data; "
-             "non-trivial = completes or has losses; distinct by case text",
+             "session-delivery-reboot: the same generator (every fifth base with 9..40 losses) with drop + try_recover before one, two, a few and every fragment; non-trivial = completes or has losses; distinct by case text",
         trusted=core.TRUSTED_COMMON + ["C01: the sender-side encoder and CRC in fvlib/ts004.py are written from TS004 / the CRC catalogue, independently of the crates and of the Coq model"])
